@@ -74,6 +74,24 @@ def h_prf(P, S):
     return True
 
 
+def h_prf_two_digests(P, S):
+    """the same (key, message) under two different digests in one process: each PRF equals ITS OWN reference
+    (no state shared between PRF objects)"""
+    from toolkit.prf.hmac_prf import HmacPRF
+    _begin(P)
+    k = S.bytes("k", 2)
+    m = S.bytes("m", 2)
+    d1, d2 = P["digests"]
+    n1 = S.choice("n1", [5, 40, 64])
+    n2 = S.choice("n2", [3, 16, 40])
+    o1 = HmacPRF(output_length=n1, hash_func_name=d1)(k, m)
+    o2 = HmacPRF(output_length=n2, hash_func_name=d2)(k, m)
+    o1b = HmacPRF(output_length=n2, hash_func_name=d1)(k, m)
+    if o1 != _ref_p_hash(k, m, n1, d1) or o2 != _ref_p_hash(k, m, n2, d2) or o1b != _ref_p_hash(k, m, n2, d1):
+        return S.fail("prf-depends-on-earlier-calls")
+    return True
+
+
 def h_prf_distinct(P, S):
     """two inputs of the same shape: equal outputs only for equal inputs (n >= 16)"""
     from toolkit.prf.hmac_prf import HmacPRF
@@ -181,6 +199,9 @@ def obligations(tier, seed):
         obs.append(ob("c16.prf_distinct.%s" % dig, "harness.c16", "h_prf_distinct",
                       {"digest": dig, "klen": 2, "mlen": 2, "n": ds + 3, "seed": seed}, budget_s=300))
     obs.append(ob("c16.prf_contracts", "harness.c16", "h_prf_contracts", {"seed": seed}, budget_s=300))
+    for d1, d2 in (("sha1", "sha256"), ("sha256", "md5"), ("sha512", "sha1")):
+        obs.append(ob("c16.prf_two_digests.%s.%s" % (d1, d2), "harness.c16", "h_prf_two_digests",
+                      {"digests": [d1, d2], "seed": seed}, budget_s=300))
     for name in list(DS) + ["shake_128", "shake_256"]:
         ds = DS.get(name, 32)
         ns = _ns(ds, q)
